@@ -23,6 +23,7 @@ THEOREMS_LIFE = [
     "Aio.C20.root_contexts_always_cleaned",
     "Aio.C20.teardowns_never_overlap",
     "Aio.C20.context_teardowns_sequential",
+    "Aio.C20.cancelled_startup_is_not_recorded",
     "Aio.C20.f16_run_app_setup_outside_try",
     "Aio.C20.run_app_failed_startup_never_cleans",
     "Aio.C20.subapp_contexts_skipped_after_failed_startup",
@@ -147,7 +148,39 @@ async def _pause(plan):
         await asyncio.sleep(plan[1] / 1000)
 
 
-def build_app(table, log, susp=0):
+async def _cancel_point(hooks):
+    """a start-up callback marked 3 (xcancel): tell the driver it is running and stay suspended long enough for the
+    cancellation of the task that awaits runner.setup() to arrive; whatever resumes afterwards goes on normally"""
+    if hooks is not None:
+        hooks["reached"].set()
+    await asyncio.sleep(0.005)
+
+
+def has_xcancel(table):
+    return any(c[1] == 3 for d in table for c in d["ctxs"]) or any(sl[0] == "h" and sl[2] == 3 for d in table for sl in d["su"])
+
+
+async def _await_or_cancel_at_point(coro, hooks, serve_wait=None):
+    """run `coro` as a task; cancel it as soon as an xcancel callback reports that it is suspended (or, for _run_app,
+    after `serve_wait` virtual seconds of serving); -> the exception that left it, or None"""
+    loop = asyncio.get_running_loop()
+    t = loop.create_task(coro)
+    reached = loop.create_task(hooks["reached"].wait())
+    timer = loop.create_task(asyncio.sleep(serve_wait)) if serve_wait is not None else None
+    await asyncio.wait([x for x in (t, reached, timer) if x is not None], return_when=asyncio.FIRST_COMPLETED)
+    if not t.done():
+        t.cancel()
+    for x in (reached, timer):
+        if x is not None and not x.done():
+            x.cancel()
+    try:
+        await t
+        return None
+    except BaseException as e:  # noqa
+        return e
+
+
+def build_app(table, log, susp=0, hooks=None):
     """the real Application tree of a table; every user callback logs its begin, suspends as `pause_plan` says,
     logs its end (teardowns and handlers also when they raise) and returns / raises"""
     from aiohttp import web
@@ -157,6 +190,8 @@ def build_app(table, log, susp=0):
     def make_ctx(a, i, kind, fe, fx):
         async def enter():
             log.append(f"n{a}.{i}")
+            if fe == 3:
+                await _cancel_point(hooks)
             await _pause(pause_plan(susp, f"n{a}.{i}"))
             _raise(fe, f"n{a}.{i}")
             log.append(f"N{a}.{i}")
@@ -187,6 +222,8 @@ def build_app(table, log, susp=0):
     def make_handler(prefix, hid, f):
         async def h(app):
             log.append(f"{prefix}{hid}")
+            if f == 3:
+                await _cancel_point(hooks)
             await _pause(pause_plan(susp, f"{prefix}{hid}"))
             log.append(f"{prefix.upper()}{hid}")
             _raise(f, f"{prefix}{hid}")
@@ -232,31 +269,32 @@ class _BadSock:
 
 
 async def run_entry(entry, table, susp=0):
-    """-> (log, [canonical outcome…]) of one life of the real application"""
+    """-> (log, [canonical outcome…]) of one life of the real application; the log is read after the loop has run on
+    for 100 more virtual seconds (whatever was left running by the life has finished by then)"""
     from aiohttp import web
     log = []
-    app = build_app(table, log, susp)
+    hooks = {"reached": asyncio.Event()}
+    app = build_app(table, log, susp, hooks)
     kind, arg = entry.split(":")
     res = []
     if kind == "r":
         runner = web.AppRunner(app)
         for op in arg:
-            try:
-                await (runner.setup() if op == "S" else runner.cleanup())
-                res.append("ok")
-            except BaseException as e:  # noqa
-                res.append(canon_exc(e))
+            if op == "S":
+                e = await _await_or_cancel_at_point(runner.setup(), hooks)
+            else:
+                try:
+                    await runner.cleanup()
+                    e = None
+                except BaseException as exc:  # noqa
+                    e = exc
+            res.append(canon_exc(e))
     else:
         socks = [_BadSock()] if arg == "1" else []
-        t = asyncio.get_running_loop().create_task(web._run_app(app, sock=socks, print=None))
-        await asyncio.sleep(50.0)           # serving (or already failed); start-up callbacks may take virtual time
-        if not t.done():
-            t.cancel()                      # what run_app does on SIGINT / SIGTERM
-        try:
-            await t
-            res.append("ok")
-        except BaseException as e:  # noqa
-            res.append(canon_exc(e))
+        # cancelled while serving (what run_app does on SIGINT / SIGTERM) — or already while an xcancel callback starts
+        e = await _await_or_cancel_at_point(web._run_app(app, sock=socks, print=None), hooks, serve_wait=50.0)
+        res.append(canon_exc(e))
+    await asyncio.sleep(100.0)
     return log, res
 
 
@@ -369,7 +407,11 @@ def oracle_life(ctx, case, log, res):
             ctx.violation("C20/cleanup-without-completed-startup", case,
                           f"context {c}: cleanup code ran although its start-up code did not complete; log={log}")
         if cnt[c] == 0 and c in entered:
-            if kind == "a" and setup_failed:
+            a_, i_ = (int(v) for v in c.split("."))
+            if table[a_]["ctxs"][i_][1] == 3:
+                # its start-up was interrupted by the cancellation of setup() and nevertheless completed later
+                sig = "C20/setup-cancelled/context-finished-startup-after-cancellation-never-cleaned"
+            elif kind == "a" and setup_failed:
                 sig = "C20/run_app/setup-outside-try"
             elif shutdown_failed:
                 sig = "C20/on_shutdown-raises/cleanup-skipped"
@@ -514,6 +556,19 @@ def single_failures(table):
             yield t
 
 
+def single_xcancel(table):
+    """the task awaiting setup cancelled while each start-up callback of `table`, in turn, is suspended"""
+    import copy
+    for a, d in enumerate(table):
+        for i in range(len(d["ctxs"])):
+            t = copy.deepcopy(table); t[a]["ctxs"][i][1] = 3
+            yield t
+        for n, sl in enumerate(d["su"]):
+            if sl[0] == "h":
+                t = copy.deepcopy(table); t[a]["su"][n][2] = 3
+                yield t
+
+
 def shape(n_root, n_sub, handlers=True):
     """root with n_root contexts (+ one sub-application with n_sub contexts when n_sub is not None)"""
     g = itertools.cycle(KINDS)
@@ -600,6 +655,12 @@ def check_life(ctx):
         for e in ("r:SC", "a:0", "R:0"):
             for sp in (1, 2, 3, 4, 5):
                 cases.append((e, tbl, sp))
+    # setup cancelled from outside while each start-up callback is suspended (log read after the loop ran on)
+    for tbl in (shape(3, None, handlers=False), shape(3, None), shape(2, 2), shape_tree()):
+        for t in single_xcancel(tbl):
+            for e in ("r:SC", "a:0"):
+                for sp in (0, 2):
+                    cases.append((e, t, sp))
     # every single failing position of a few fixed shapes, through every entry
     for tbl in (shape(4, None), shape(3, 2), shape(2, 3), shape_tree()):
         for t in single_failures(tbl):
@@ -610,6 +671,10 @@ def check_life(ctx):
         t = gen_table(rng, rng.choice([0.0, 0.08, 0.15, 0.3]))
         r = rng.random()
         e = "r:SC" if r < 0.45 else "a:0" if r < 0.75 else "a:1" if r < 0.87 else rng.choice(["r:S", "r:C", "r:CSC", "r:CS"]) if r < 0.93 else "R:0"
+        if e != "R:0" and rng.random() < 0.12:
+            xs = list(single_xcancel(t))
+            if xs:
+                t = rng.choice(xs)
         cases.append((e, t, rng.choice([0, 1, 2, 3 + rng.randrange(1000), 3 + rng.randrange(1000)])))
     small = [(e, t, 3 + k % 7) for k, t in enumerate(all_small(3)) for e in ("r:SC", "a:0")]
     tree = [(e, t, k % 3) for k, t in enumerate(all_small_tree()) for e in ("r:SC", "a:0")]
